@@ -213,6 +213,9 @@ DocKids(n) == UNION {[1..k -> DocLeaves] : k \in 0..n}
 DocElems(n) == {El(tag, a, <<>>, k) : tag \in {"div", "b"}, a \in DocAtts, k \in DocKids(n)}
 DocTreesSmall == {<<e>> : e \in DocElems(1)}
                  \cup {<<RawN("<!DOCTYPE html>"), El("html", <<>>, <<>>, <<El("p", a, <<>>, <<e>>), TextN(t)>>)>> : a \in DocAtts, e \in DocElems(0), t \in DocTexts}
+\* raw-text elements: their content is not parsed for references or markup
+DocRawText == {<<El("div", <<>>, <<>>, <<El(tag, a, <<>>, <<TextN(t)>>), TextN("a<b")>>)>> :
+                  tag \in {"script", "style"}, a \in {<<>>, <<At("id", "i")>>}, t \in {"ok", "if (a<b && c) x()", "a > b"}}
 DocTreesLarge == {<<e>> : e \in DocElems(2)} \cup {<<El("p", a, <<>>, <<e, TextN("z")>>)>> : a \in DocAtts, e \in DocElems(1)}
 DocVariants == 0..3
 
@@ -221,7 +224,7 @@ DocVariants == 0..3
 \* Product families (one, nest, metal, esc, py) are given by DIMENSIONS (sequences of options) and a builder from one
 \* option per dimension: ix = one index per dimension, tree = <<>> until built (big sets of big trees are never
 \* built).  Set families (expr, void, deep, metalx, doc) are small sets of trees: the descriptor carries the tree.
-DocTrees == IF Quick THEN DocTreesSmall ELSE DocTreesSmall \cup DocTreesLarge
+DocTrees == DocRawText \cup (IF Quick THEN DocTreesSmall ELSE DocTreesSmall \cup DocTreesLarge)
 SetFams == {"expr", "void", "deep", "metalx", "doc"}
 TreesOf(f) == CASE f = "expr" -> ExprTrees [] f = "void" -> VoidTrees [] f = "deep" -> DeepTrees
                 [] f = "metalx" -> MetalExtra [] f = "doc" -> DocTrees [] OTHER -> {<<>>}
